@@ -71,7 +71,7 @@ def dims_for(shape):
     return ["y", "x"][-len(shape):] if len(shape) <= 2 else ["t", "y", "x"]
 
 
-def make_dataset(path, shape, variables, crs=True):
+def make_dataset(path, shape, variables, crs=True, packed=False):
     """a dataset with coordinate variables, an optional CRS variable and the given data variables (name -> masked array)"""
     from netCDF4 import Dataset
     import numpy as np
@@ -80,8 +80,13 @@ def make_dataset(path, shape, variables, crs=True):
     with Dataset(path, "w") as ds:
         for nm, n in zip(names, shape):
             ds.createDimension(nm, n)
-            v = ds.createVariable(nm, "f8", (nm,))
-            v[:] = np.arange(n, dtype=float) * 0.25 + (100.5 if nm == "x" else -7.125)
+            if packed and nm == "y":        # a coordinate stored packed (CF scale_factor / add_offset): readers see the unpacked values
+                v = ds.createVariable(nm, "i2", (nm,))
+                v.scale_factor = 0.25
+                v.add_offset = -7.0
+            else:
+                v = ds.createVariable(nm, "f8", (nm,))
+            v[:] = np.arange(n, dtype=float) * 0.25 + (100.5 if nm == "x" else -7.0 if packed else -7.125)
             v.units = "degrees_east" if nm == "x" else "degrees_north"
         if crs:
             c = ds.createVariable("crs", "i4", ())
@@ -119,7 +124,7 @@ def run_case(job):
 
     wd = os.path.join(_W["root"], "c%d" % jid)
     os.makedirs(wd)
-    rec = {"id": jid, "mode": case["mode"], "grids": case["grids"], "mv": case["mv"], "dt": case["dt"], "obs": [], "dimsok": True}
+    rec = {"id": jid, "mode": case["mode"], "grids": case["grids"], "mv": case["mv"], "dt": case["dt"], "obs": [], "dimsok": True, "again": []}
 
     def read(p, name, fname, var, extra):
         args = OrderedDict([("InFileName", fname), ("InFieldName", var)] + extra)
@@ -142,7 +147,7 @@ def run_case(job):
             rec["obs"].append(read(p, "R", "in.nc", "v", extra))
         else:
             gs = case["grids"]
-            make_dataset(os.path.join(wd, "tmpl.nc"), gs[0][0], {"t": to_array(gs[0])}, crs=(jid % 2 == 0))
+            make_dataset(os.path.join(wd, "tmpl.nc"), gs[0][0], {"t": to_array(gs[0])}, crs=(jid % 2 == 0), packed=(jid % 4 == 1))
             p = Program(libraries=LIBS, working_dir=wd)
             names = []
             for i, g in enumerate(gs):
@@ -156,7 +161,7 @@ def run_case(job):
                 p.commands["W"].result
                 with Dataset(os.path.join(wd, "tmpl.nc")) as a, Dataset(os.path.join(wd, "out.nc")) as b:
                     for dn in dims_for(gs[0][0]):
-                        if dn not in b.variables or b.dimensions[dn].size != a.dimensions[dn].size or not np.array_equal(a[dn][:].data, b[dn][:].data) \
+                        if dn not in b.variables or b.dimensions[dn].size != a.dimensions[dn].size or not np.array_equal(np.ma.getdata(a[dn][:]), np.ma.getdata(b[dn][:])) \
                                 or getattr(b[dn], "units", None) != getattr(a[dn], "units", None):
                             rec["dimsok"] = False
                     for nm in names:
@@ -164,6 +169,11 @@ def run_case(job):
                             rec["dimsok"] = False
                 for i, g in enumerate(gs):
                     rec["obs"].append(read(p, "B%d" % i, "out.nc", names[i], [("DataType", "Integer")] if g[1] == "i" else []))
+                # the same first result written once more, alone: what was written with it before must not matter
+                p.add_command(p.find_command_class("EEMSWrite"), "W2", OrderedDict([("OutFileName", "out2.nc"), ("OutFieldNames", names[:1]),
+                                                                                     ("DimensionFileName", "tmpl.nc"), ("DimensionFieldName", "t")]))
+                p.commands["W2"].result
+                rec["again"] = read(p, "B_again", "out2.nc", names[0], [("DataType", "Integer")] if gs[0][1] == "i" else [])
             except BaseException as e:
                 rec["obs"] = [["err", type(e).__name__, isinstance(e, MPilotError)] for _ in gs]
     finally:
